@@ -142,6 +142,7 @@ func lemma_deps_rdeps_inverse(g *DirectedTargetGraph, n, d model.BuildNode) ([]m
 //@   ensures [callback_at_most_once] callbackRuns <= old(callbackRuns) + 1
 //@   ensures [callback_after_ready] callbackRuns > old(callbackRuns) ==> received(info.ready)
 //@   ensures [success_recorded_only_after_callback] (has(w.completions, labelOf(node)) && !old(has(w.completions, labelOf(node)))) ==> callbackRuns > old(callbackRuns)
+//@   ensures [resolved_unless_cancelled] callbackRuns > old(callbackRuns) ==> has(w.completions, labelOf(node)) || isCanceledErr(err)
 
 // C12/C03: routines exist only for selected nodes (spawn precondition of nodeRoutine); C04: walker state is touched under
 // its mutex or before the first routine is started.
